@@ -208,6 +208,12 @@ def prepare(master, tier, extra_bases=None):
     if z.status != "ok":
         raise core.HarnessError("zygote table child failed")
     W["zygote_tables"] = z.value
+    # baseline for the table invariant: the state of a fresh `import xdis` process (the zygote) for every module
+    # loaded there; for modules that are only imported later, their state right after import (all-imported child)
+    W["all_imported_tables"] = W["snapshot"]
+    base = dict(W["snapshot"])
+    base.update(z.value)
+    W["snapshot"] = base
 
 
 # ------------------------------------------------------------------------------- plans
@@ -1217,7 +1223,8 @@ def main(opts):
     core.log("[C18] corpus: %d files (%d loadable, %d small enough for listings), %d versions, prepared in %.1fs" % (
         len(W["bases"]), len(W["loadable"]), len(W["small"]), len(W["versions"]), time.time() - t0))
     # zygote sanity: the zygote's tables equal the all-imported snapshot on shared modules
-    zbad, _zobs = canon.compare_tables(W["snapshot"], W["zygote_tables"])
+    # importing every other xdis module must not alter a table of a module that `import xdis` already loaded
+    zbad, _zobs = canon.compare_tables(W["zygote_tables"], W["all_imported_tables"])
     n = cfg["histories"]
     sh = cfg["shard"]
     W["chain_from"] = n
